@@ -49,7 +49,12 @@ def parse_smtlib(text: str):  # noqa: C901
                         pos += 1
                         continue
                     break
-            cur_expr.append(Node(''.join(literal)))
+            literal = Node(''.join(literal))
+            if cur_expr is not None:
+                cur_expr.append(literal)
+            else:
+                # literal outside of any s-expression
+                yield literal
 
         # Comments
         elif char == ';':
@@ -74,6 +79,10 @@ def parse_smtlib(text: str):  # noqa: C901
 
         # Close s-expression
         elif char == ')':
+            if not exprs:
+                # ignore closing parenthesis that does not match any opening
+                # one (can not be represented as a node)
+                continue
             cur_expr = exprs.pop()
 
             # Do we have nested s-expressions?
